@@ -132,7 +132,7 @@ fn check(e: &Expression, case: &str, rep: &mut Report, by_construction: bool) {
             }
         }
         Tv::Skip(_) => rep.skipped_unspecified += 1,
-        Tv::Refused(m) => rep.violation("C09:refused", &format!("supported tree refused: {}", m), case, J::Null),
+        Tv::Refused(_) => rep.count("refused_by_compile"), // C12's subject
         Tv::Bad { kind, what, mut detail } => {
             detail.push("expression", J::s(render_default(e).unwrap_or_default()));
             let sig = format!("C09:{}:{}", kind, if with_action { "with-action" } else { "without-action" });
